@@ -13,6 +13,8 @@ import ChythonModel.Proofs.C06Mol
 import ChythonModel.Spec.CycleBasisMin
 import ChythonModel.Proofs.C06Exchange
 import ChythonModel.Proofs.C06Min
+import ChythonModel.Model.C06Pid
+import ChythonModel.Proofs.C06PidMain
 /-!
 # C06 — ring perception returns a minimum cycle basis that ring marks agree with
 
@@ -138,6 +140,77 @@ example :
     let g : Adj := [(1, [2, 6, 4]), (2, [1, 3]), (3, [2, 4]), (4, [3, 5, 1]), (5, [4, 6]), (6, [5, 1])]
     checkSssr g [[1, 2, 3, 4], [1, 4, 5, 6]] = true ∧ checkSssr g [[1, 2, 3, 4], [2, 3, 4, 1]] = false ∧
     checkSssr g [[1, 2, 3, 4]] = false ∧ checkSssr g [[1, 2, 3, 4], [1, 3, 5, 6]] = false := by decide
+
+/-! ## the PID-matrix stage of `_sssr` (`Model/C06Pid.lean`): what the heuristic's model returns, for every graph -/
+
+/-- `_bfs`: every reported path is a walk of the graph (consecutive atoms bonded) with at least two atoms — any input -/
+theorem bfs_paths_are_walks (g : Adj) (ps : List Path) (h : ChythonModel.Model.C06.bfsPaths g = some ps) :
+    ∀ p ∈ ps, Walk g p ∧ 2 ≤ p.length :=
+  bfsPaths_walks g ps h
+
+/-- `_make_pid`: whatever is stored under `pid1[i][j]` / `pid2[i][j]` (first loop and the Floyd–Warshall-like triple loop
+with its path concatenations) is a walk of the graph from `i` to `j` -/
+theorem make_pid_stores_walks (g : Adj) (hsym : symAdj g = true) (paths : List Path)
+    (hp : ∀ p ∈ paths, Walk g p ∧ 2 ≤ p.length) (p1 : Pid1) (p2 : Pid2) (d : Dist)
+    (h : makePid paths = some (p1, p2, d)) : PidOK g p1 p2 :=
+  makePid_ok g (sym_of_symAdj hsym) paths hp h
+
+/-- `_make_pid` never produces the degenerate "ring" that walks one bond twice: `pid2` holds no two-atom path and every
+cell of `pid1` holds at most one (the bond itself) -/
+theorem make_pid_no_double_bond (g : Adj) (hwf : wfAdj g = true) (hsym : symAdj g = true) (paths : List Path)
+    (hp : ∀ p ∈ paths, Walk g p ∧ 2 ≤ p.length) (p1 : Pid1) (p2 : Pid2) (d : Dist)
+    (h : makePid paths = some (p1, p2, d)) : NoDoubleBond p1 p2 :=
+  ⟨makePid_one_short g (sym_of_symAdj hsym) paths hp h,
+    makePid_p2_long g (sym_of_symAdj hsym) (no_loop_of_wfAdj hwf) paths hp h⟩
+
+/-- **every candidate ring is a simple cycle**: each ring the generator `_c_set(*_make_pid(_bfs(_skin_graph(bonds))))`
+yields is a closed path of the *input* graph without repeated atom, consecutive atoms bonded, ≥ 3 atoms -/
+theorem candidates_are_simple_cycles (g : Adj) (hwf : wfAdj g = true) (hsym : symAdj g = true)
+    (cands : List (Option Ring)) (h : pidCandidates g = some cands) : ∀ r, some r ∈ cands → IsSimpleCycle g r :=
+  sssrTrace_cands_cycles hwf hsym (p2LongFor_of_wf hwf hsym) 0 h
+
+/-- `_rings_filter` returns exactly `n_sssr` rings, pairwise different, each one produced by the candidate generator
+(it never invents a ring: the merged contours of `_connected_rings` are only used as a filter) -/
+theorem rings_filter_spec (cands : List (Option Ring)) (n : Nat) (out : List Ring) (h : ringsFilter cands n = .ok out) :
+    out.length = n ∧ out.Nodup ∧ ∀ r ∈ out, some r ∈ cands :=
+  ⟨ringsFilter_length_any h, ringsFilter_nodup h, ringsFilter_subset h⟩
+
+/-- **`_sssr` on any graph**: whenever the model of `_sssr(bonds, n)` returns, it returns `n` pairwise different rings and
+every one of them is a simple cycle of `bonds` -/
+theorem sssr_pid_rings_are_simple_cycles (g : Adj) (hwf : wfAdj g = true) (hsym : symAdj g = true) (n : Nat)
+    (out : List Ring) (h : sssrPid g n = .ok out) : (∀ r ∈ out, IsSimpleCycle g r) ∧ out.Nodup ∧ out.length = n :=
+  sssrPid_spec hwf hsym h
+
+/-- **`Rings.sssr` of a molecule**: for every well-formed molecule, whenever the model of `mol.sssr` returns a ring list,
+every ring is a simple cycle all of whose bonds exist in the molecule with order ≠ 8, no ring is listed twice, and the
+number of rings is `rings_count` = the cyclomatic number `|E| − |V| + c` of the molecule without its coordinate bonds
+(never more). Two of the checker's three clauses (`check_sssr_sound`) are thereby theorems about the model of the
+heuristic; GF(2)-independence and minimality remain per-run verdicts of the proved checkers. -/
+theorem sssr_model_rings_are_simple_cycles (m : ChythonModel.Model.Mol) (hwf : m.WF = true) (out : List Ring)
+    (h : sssrModel m = .ok out) :
+    (∀ r ∈ out, IsSimpleCycle (notSpecial m) r ∧
+      ∀ ab ∈ cyclePairs r, ∃ bd, m.bond? ab.1 ab.2 = some bd ∧ bd.order ≠ 8) ∧
+    out.Nodup ∧
+    ∃ rc : Int, ringsCount m = some rc ∧ cyclomatic (notSpecial m) = some rc ∧ out.length = rc.toNat ∧
+      (out.length : Int) ≤ max rc 0 := by
+  obtain ⟨h1, h2, rc, h3, h4⟩ := sssrModel_spec m hwf h
+  refine ⟨fun r hr => ⟨h1 r hr, ring_bonds_exist hwf (h1 r hr)⟩, h2, rc, h3, ?_, h4, by omega⟩
+  rw [← ringsCount_eq_cyclomatic m hwf]; exact h3
+
+/-- non-vacuous: bicyclo[1.1.0]butane with a methyl group (the tail is pruned, four candidates are generated, two rings are
+kept); and a three-ring whose second ring would close over a coordinate bond: one ring is reported -/
+example :
+    let g : Adj := [(1, [2, 3, 4]), (2, [1, 3]), (3, [2, 1, 4]), (4, [3, 1, 5]), (5, [4])]
+    wfAdj g = true ∧ symAdj g = true ∧
+    pidCandidates g = some [some [1, 2, 3], some [1, 3, 4], some [1, 3, 4], some [1, 3, 4]] ∧
+    sssrPid g 2 = .ok [[1, 2, 3], [1, 3, 4]] ∧ sssrPid g 3 = .notReached := by decide
+
+example :
+    let b1 : ChythonModel.Model.Bond := ⟨1, none⟩
+    let b8 : ChythonModel.Model.Bond := ⟨8, none⟩
+    let m : ChythonModel.Model.Mol := ⟨[(1, {z := 6}), (2, {z := 6}), (3, {z := 6}), (4, {z := 26})],
+      [(1, [(2, b1), (3, b1), (4, b8)]), (2, [(1, b1), (3, b1)]), (3, [(2, b1), (1, b1), (4, b1)]), (4, [(1, b8), (3, b1)])]⟩
+    m.WF = true ∧ sssrModel m = .ok [[1, 2, 3]] := by decide
 
 /-! ## minimality: the exchange criterion over GF(2) and the checker `checkMinimalWrt` -/
 
